@@ -43,6 +43,18 @@ T = {
            "truncateBlocks(eps1) followed by truncateBlocks(eps2<eps1) on the same density matrix before G/chi/averages are prepared"),
  "C20-a": ("C20", "Lattice::addTerm caches the site lookup but compares each label with SiteLabels[0] instead of the previous label",
            "a hand-built term with >=3 operators whose labels return to the first site after another site (A,B,A,..) on sites of different shape: valid terms rejected / invalid ones stored"),
+ "C01-b": ("C01", "IndexContainer2::enumerateInitialIndices skips index pairs with different spin projections ('vanish identically') when GFContainer::prepareAll() is called without an index set",
+           "a Hamiltonian with spin-mixing one-body terms AND a spin-off-diagonal pair read from the container of all components: the cache-miss path silently creates an unprepared element that evaluates to 0"),
+ "C02-b": ("C02", "ElementWithPermFreq::operator() computes the fourth Matsubara number of an alias as n1+n3-n2 instead of n1+n2-n3",
+           "chi read through TwoParticleGFContainer for an alias that swaps the two creation indices, at a triple with n2 != n3"),
+ "C03-b": ("C03", "StatesClassification::compute guard 'Status>Computed' can never fire: a second compute() appends every Fock state to its block again",
+           "calling compute() twice on the same StatesClassification before the Hamiltonian is prepared"),
+ "C06-b": ("C06", "TwoParticleGF::compute broadcasts the Lehmann terms only in the else-branch of the table reduction: with a frequency list and clear=false the terms are never distributed",
+           "clear=false, non-empty frequency list, >=2 ranks, then evaluation from the terms on a rank that did not compute the part"),
+ "C07-b": ("C07", "StatesClassification::compute rounds every quantum number to the nearest multiple of 1/2 before keying the block ('guard against floating-point noise')",
+           "an accepted user-supplied integral of motion with a spectrum that is not (half-)integer, e.g. (N_up-N_dn)/4"),
+ "C09-b": ("C09", "Hamiltonian::computeGroundEnergy keeps a running minimum but starts the loop at block 1 (block 0, the vacuum, is never considered)",
+           "the vacuum is the unique ground state AND beta*e1 > ~709 (then exp overflows and the weights become NaN); C03's ground-energy statement is violated for every model whose minimum sits in block 0"),
 }
 results = {}
 for log in sys.argv[1:]:
